@@ -32,5 +32,6 @@ f23bfa6 C08 F13
 45141a4 C17 F17
 2e8c588 C17 F18
 96d3cfc C16 F20
+7b18d80 C12 F22
 LIST
 git -C /repo worktree remove --force $WT
